@@ -128,14 +128,24 @@ fn fnv(s: &str) -> u64 {
     h
 }
 
-fn threaded(src: &str, n: usize) {
+fn threaded(src: &str, n: usize, reverse: bool) {
     let chunks: Vec<String> = src.split("\n----\n").map(|s| s.to_string()).collect();
     let mut handles = Vec::new();
     for t in 0..n {
         let chunks = chunks.clone();
         handles.push(std::thread::spawn(move || {
             let mut out = Vec::new();
-            for (i, chunk) in chunks.iter().enumerate() {
+            // every thread walks the definitions in its own order (rotated, odd threads backwards): output that depends on
+            // what the process generated before shows up as a difference between threads
+            let len = chunks.len();
+            let order: Vec<usize> = (0..len)
+                .map(|k| {
+                    let k = if (t % 2 == 1) != reverse { len - 1 - k } else { k };
+                    (k + t * len / n.max(1)) % len
+                })
+                .collect();
+            for i in order {
+                let chunk = &chunks[i];
                 if chunk.trim().is_empty() {
                     continue;
                 }
@@ -196,7 +206,7 @@ fn main() {
     std::io::stdin().read_to_string(&mut s).unwrap();
     std::panic::set_hook(Box::new(|_| {}));
     if let Some(p) = args.iter().position(|a| a == "--threads") {
-        threaded(&s, args[p + 1].parse().unwrap());
+        threaded(&s, args[p + 1].parse().unwrap(), args.iter().any(|a| a == "--reverse"));
         return;
     }
     for (i, chunk) in s.split("\n----\n").enumerate() {
